@@ -27,7 +27,9 @@ def plan(tier, seed):
         "short: proof games replayed in refchess": 4000,
         "iter: proof games replayed in refchess": 100,
     }
-    mult = 1 if quick else 30
+    floors_t = {k: v * 30 for k, v in floors_q.items()}
+    floors_t["short: proof games replayed in refchess"] = 20000
+    floors_t["iter: proof games replayed in refchess"] = 1000
     return dict(
         builds=[("opt", "c16"), ("asan", "c16")],
         replay_bin=("opt", "c16"),
@@ -43,7 +45,7 @@ def plan(tier, seed):
               "iterations (kernel, path, proof game with the filter's own node budgets) on final FENs of full games. "
               "evaluations = games. Non-trivial = game (distinct by sub + final FEN) with >= 1 promotion, an e.p. right in "
               "the final position, >= 3 captures, or a castling right lost with king and rook on their home squares."),
-        floors={k: v * mult for k, v in floors_q.items()},
+        floors=floors_q if quick else floors_t,
         assumptions=[
             "refchess (independent mailbox rules, validated by published perft counts at the start of the run) replays every proof game and generates the games",
             "domain: positions with >= 26 men reached by a legal game from the standard initial position; FEN with the e.p. target only when an e.p. capture is legal (ProofGame rejects any other spelling as 'Lossy FEN conversion')",
